@@ -693,6 +693,8 @@ func (Area) Exec(input string) string {
 		return fmt.Sprintf("%d %s %s %d", int(st.Code()), common.HexS(st.Message()), lettersOf(statusDetails(st)), hs)
 	case "rb":
 		return execRb(f)
+	case "seq":
+		return execSeq(f)
 	case "e2e", "opts", "strag", "create":
 		return execIsolated(input) // in a worker subprocess: a runtime fatal error becomes "CRASH …", not a dead harness
 	}
@@ -1033,6 +1035,8 @@ func (Area) Gen(r *rand.Rand, tier string, emit func(string)) {
 	genOpts(emit, count)
 	// 0c. response_body selection on nested response messages (run-time built schemas, real transcoder)
 	genRb(r, tier, emit, count)
+	// 0d. sequences of calls over two targets with different descriptor sets through one bridge: rendering is history-free
+	genSeq(emit, count)
 
 	// 1. the executed table of the third-party runtime.HTTPStatusFromCode
 	for c := 0; c <= 20; c++ {
